@@ -366,6 +366,12 @@ func dedupWaitSlot(c *Check, a *Anchors) {
 		if back < 0 {
 			back = p.EventIndex("ret(release)", "call")
 		}
+		if back < 0 && a.SlotDirect {
+			// direct form: the slot is taken back by a (deferred) call of the acquire function after the hand-back
+			if back = p.EventIndex("acquire", "defer"); back < 0 {
+				back = p.EventIndex("acquire", "call")
+			}
+		}
 		switch {
 		case rel < 0 || rel > ir:
 			bad = append(bad, "the wait for a deduplicated execution blocks while the caller still holds its concurrency slot: "+p.String())
